@@ -545,7 +545,10 @@ def run(ctx):
                        "frame type is the first payload byte as in tlexport (RFC 9000 §12.4 requires the shortest "
                        "encoding of the type, so non-minimal encodings apply to field varints only)"]
     ctx.gen_tables = {"FrameTable.lean": extract.frame_table()}
-    ctx.prove(["TLX.Props.C17"])
+    import translate                 # decision-logic functions re-translated from the source and proved equal to the model
+    _tm, _tt = translate.wire(ctx, "C17")
+    ctx.prove(["TLX.Props.C17"] + _tm)
+    ctx.require_theorems(_tt)
     ctx.require_theorems(THEOREMS)
     explore(ctx)
     ctx.exhaustive = False
